@@ -24,7 +24,8 @@
 From Coq Require Import ZArith List Bool.
 From Low Require Import Lib.BitSeq Lib.Bytes Model.Pbcmpl Spec.PbcmplSpec
   Proofs.PbcmplIO Proofs.PbcmplHeader Proofs.PbcmplProofs Proofs.PbcmplMarshal
-  Proofs.PbcmplFrames Proofs.PbcmplStream.
+  Proofs.PbcmplFrames Proofs.PbcmplStream Proofs.PbcmplHistory Proofs.PbcmplWalk.
+From Low Require Import Model.PbcmplWalk Spec.PbcmplWalkSpec.
 Import ListNotations.
 Open Scope Z_scope.
 
@@ -160,6 +161,30 @@ Theorem C06_stream : forall kind, kind = 0 \/ kind = 1 ->
   c_Stream kind (cs, t) = Some (frames_steps (k_enc kind) 0 ms, ([], t)).
 Proof. exact c_Stream_frames. Qed.
 Print Assumptions C06_stream.
+
+(** widening — ReadHeader as its users combine it with io.ReadFull (Model/PbcmplWalk.v: a
+    program that walks the stream frame by frame without decoding; bodies above 64 KiB
+    are refused by that program): over ANY chunking of a stream of frames it reports, per
+    frame, 32 bytes of header, the version, header size 32, body size = encoded length
+    and the encoded body itself, then a clean io.EOF; for ANY body encoder *)
+Theorem C06_walk_frames : forall (enc : list Z -> list Z) t, t_err t = EEOF ->
+  forall ms cs,
+  Forall (walk_wf enc) ms -> bytes_ok (wire_of enc ms) ->
+  chunks_ok cs -> concat cs = wire_of enc ms -> zlen (wire_of enc ms) < 2 ^ 63 ->
+  c_Walk (cs, t) = Some (frames_walk enc ms, ([], t)).
+Proof. exact c_Walk_frames. Qed.
+Print Assumptions C06_walk_frames.
+
+Example C06_walk_nonvacuous :
+  let ms := [(Some [49; 46; 50; 46; 51], [1; 2; 3]); (None, []); (Some (repeat 120 16), repeat 7 200)] in
+  let t := {| t_err := EEOF; t_with_last := false |} in
+  let cs := chunks_of [3; 50] (wire_of (k_enc 1) ms) in
+  c_Walk (cs, t)
+    = Some ([(32, None, [49; 46; 50; 46; 51], 32, 5, [10; 3; 1; 2; 3], false);
+             (32, None, [49; 46; 48; 46; 48], 32, 0, [], false);
+             (32, None, repeat 120 16, 32, 203, 10 :: 200 :: 1 :: repeat 7 200, false);
+             (0, Some EEOF, [], 0, 0, [], false)], ([], t)).
+Proof. vm_compute. reflexivity. Qed.
 
 (** non-vacuity: three frames (BytesValue bodies of 3, 0 and 200 bytes — the last one
     with a two-byte varint —, versions "1.2.3", none (DefaultVer) and 16 non-NUL bytes),
